@@ -212,6 +212,65 @@ pub fn c16_mirror(_m: &mut Mon, ctx: &StepCtx, stats: &mut Stats, out: &mut Vec<
     }
 }
 
+/// The reward contract's two ways of reporting a holder agree: the Holders enumeration read in
+/// small pages (cursor = last address of the previous page) equals the single page the
+/// observation uses, and `Holder { address }` returns the enumerated record (or an empty one).
+pub fn c16_queries(_m: &mut Mon, ctx: &StepCtx, stats: &mut Stats, out: &mut Vec<Violation>) {
+    use basset::reward::{HolderResponse, HoldersResponse, QueryMsg as RewQ};
+    let r = match &ctx.post.reward {
+        Some(r) => r,
+        None => return,
+    };
+    let changed = ctx.pre.reward.as_ref().map(|p| p.holders.len() != r.holders.len()).unwrap_or(true);
+    if !changed && ctx.idx % 8 != 3 {
+        return;
+    }
+    stats.check("c16_holder_queries");
+    let page = 1 + (ctx.idx as u32 % 3);
+    let mut paged: Vec<HolderResponse> = vec![];
+    let mut start: Option<String> = None;
+    for _ in 0..(r.holders.len() + 2) {
+        match crate::wasm::query_typed::<_, HoldersResponse>(ctx.post_w, REWARD, &RewQ::Holders { start_after: start.clone(), limit: Some(page) }) {
+            Ok(p) => {
+                if p.holders.is_empty() {
+                    break;
+                }
+                start = p.holders.last().map(|h| h.address.clone());
+                paged.extend(p.holders);
+            }
+            Err(e) => {
+                viol(out, "C16", "holder_queries_agree", ctx.idx, "reward.Holders:failed", format!("Holders(start {:?}, limit {}) failed: {}", start, page, e));
+                return;
+            }
+        }
+    }
+    if paged != r.holders {
+        viol(out, "C16", "holder_queries_agree", ctx.idx, "reward.Holders:paging", format!("Holders read in pages of {} lists {:?}, in one page {:?}", page, paged.iter().map(|h| (&h.address, h.balance.u128())).collect::<Vec<_>>(), r.holders.iter().map(|h| (&h.address, h.balance.u128())).collect::<Vec<_>>()));
+    }
+    for a in ctx.known.iter() {
+        let listed = r.holders.iter().find(|h| h.address == *a);
+        match crate::wasm::query_typed::<_, HolderResponse>(ctx.post_w, REWARD, &RewQ::Holder { address: a.clone() }) {
+            Ok(h) => {
+                let same = match listed {
+                    Some(l) => l.balance == h.balance && l.index == h.index && l.pending_rewards == h.pending_rewards,
+                    None => h.balance.is_zero() && h.pending_rewards.is_zero(),
+                };
+                if !same {
+                    viol(out, "C16", "holder_queries_agree", ctx.idx, "reward.Holder:differs_from_enumeration", format!("Holder({}) = {:?} but the enumeration has {:?}", a, h, listed));
+                    break;
+                }
+            }
+            Err(e) => {
+                // an address the Api rejects (upper case ...) cannot hold tokens either
+                if listed.is_some() {
+                    viol(out, "C16", "holder_queries_agree", ctx.idx, "reward.Holder:failed", format!("Holder({}) failed: {}", a, e));
+                    break;
+                }
+            }
+        }
+    }
+}
+
 // ======================================================================= C17
 
 fn bal_of(c: &CallRec, denom: &str) -> u128 {
